@@ -229,3 +229,16 @@ func Brief(c Case) []string {
 	}
 	return out
 }
+
+// GenRefuse draws (in one case of four) one or two rules whose creation the data plane turns down.
+func GenRefuse(t *rapid.T) []Refused {
+	if rapid.IntRange(0, 3).Draw(t, "refuse") != 0 {
+		return nil
+	}
+	var out []Refused
+	n := rapid.IntRange(1, 2).Draw(t, "nrefuse")
+	for i := 0; i < n; i++ {
+		out = append(out, Refused{Kind: rapid.SampledFrom([]string{"FAR", "QER", "URR", "BAR"}).Draw(t, "rkind"), ID: uint32(rapid.IntRange(1, 3).Draw(t, "rid"))})
+	}
+	return out
+}
